@@ -1,8 +1,9 @@
 //! unit: u03c
-//! properties: C03 C10 C02 C08
+//! properties: C03 C10 C02 C08 C07
 //! note: restart, which outbound HTLCs of a closed channel the monitor reports as failed on chain (ChannelMonitor::get_onchain_failed_outbound_htlcs): an HTLC already reported to the user is not reported again; an HTLC the confirmed commitment does not contain is reported failed; one it contains without an output (dust) is reported failed; one with an output is reported failed only if the resolution recorded for THAT output of the confirmed commitment carries no preimage, and is otherwise still awaited; and which HTLC list stands for the confirmed commitment: the current holder commitment's for its txid, the previous one's for the previous txid, none otherwise
 //! trusted: R15/R18 (deep slice of the function-local macro walk_htlcs!): the body of the loop over the candidate HTLCs, with its tests and reported hashes carried verbatim through captures inside a hand-written skeleton: the iterator `find` over the confirmed commitment's HTLCs and the `filter(..).next()` over the recorded resolutions are index loops returning the FIRST match (std definitions), `continue` is `return None`, `res.insert(source.clone(), H)` is `return Some(H)`; the set of HTLCs already reported is an environment set (contains with the std contract); SentHTLCId::from_source uninterpreted; R8: equality of optional sources / optional output indices through structural-equality wrappers
 //! trusted: R15 (deep slice): the chain of tests that picks the holder commitment whose HTLCs are walked, the macro argument of each branch read through the two-arm macro which_holder_htlcs! (CURRENT_WITH_SOURCES / PREV_WITH_SOURCES); `X.trust().txid()` is the stub txid of the commitment skeleton
+//! trusted: R15 (deep slices): check_spend_holder_transaction: the Option chain that recognises the confirmed transaction (closure bodies and flags carried verbatim into closures with typed headers and ensures, R9; assume_specification for Option::filter and Option::or_else, std definitions) and the two fail_unbroadcast_htlcs! invocations' HTLC-set argument
 //! trusted: assume_specification for core::cmp::max / core::cmp::min (std definitions): present in every unit so that a change that introduces them is verified instead of being rejected by the tool
 use vstd::prelude::*;
 verus! {
@@ -130,6 +131,51 @@ macro_rules! which_holder_htlcs { (CURRENT_WITH_SOURCES) => { Which::CurrentHold
     walk_htlcs!(holder_commitment_htlcs!(us, PREV_WITH_SOURCES).unwrap());
 //@with
     walk_htlcs!(holder_commitment_htlcs!(us, CURRENT_WITH_SOURCES).unwrap());
+//@end
+
+// ---- check_spend_holder_transaction: which of our commitments a confirmed transaction is, and whose HTLCs are compared with it ----
+pub assume_specification<T, P: FnOnce(&T) -> bool>[Option::<T>::filter](o: Option<T>, p: P) -> (r: Option<T>)
+    requires o is Some ==> p.requires((&o->Some_0,)),
+    ensures o is None ==> r is None, o is Some ==> (r == o || r is None), o is Some ==> p.ensures((&o->Some_0,), r is Some);
+pub assume_specification<T, F: FnOnce() -> Option<T>>[Option::<T>::or_else](o: Option<T>, f: F) -> (r: Option<T>)
+    requires o is None ==> f.requires(()),
+    ensures o is Some ==> r == o, o is None ==> f.ensures((), r);
+//@extract lightning/src/chain/channelmonitor.rs :: impl ChannelMonitorImpl :: fn check_spend_holder_transaction
+//@slice R15
+    let holder_commitment_tx = Some((&funding_spent.current_holder_commitment_tx, $f1:seq)) .filter(|(current_holder_commitment_tx, _)| { $b1:seq }) .or_else(|| { funding_spent .prev_holder_commitment_tx .as_ref() .map(|prev_holder_commitment_tx| (prev_holder_commitment_tx, $f2:seq)) .filter(|(prev_holder_commitment_tx, _)| { $b2:seq }) });
+//@with
+    fn holder_commitment_that_confirmed<'a>(funding_spent: &'a FundingScope, commitment_txid: Txid) -> Option<(&'a HolderCommitment, bool)> {
+        Some((&funding_spent.current_holder_commitment_tx, $f1))
+            .filter(|p: &(&HolderCommitment, bool)| -> (b: bool) ensures b == (p.0.id == commitment_txid) { let current_holder_commitment_tx = p.0; $b1 })
+            .or_else(|| -> (o: Option<(&'a HolderCommitment, bool)>)
+                ensures o == (match funding_spent.prev_holder_commitment_tx { Some(pc) => if pc.id == commitment_txid { Some((&pc, false)) } else { None::<(&'a HolderCommitment, bool)> }, None => None::<(&'a HolderCommitment, bool)> })
+            {
+                funding_spent.prev_holder_commitment_tx.as_ref()
+                    .map(|prev_holder_commitment_tx: &'a HolderCommitment| -> (q: (&'a HolderCommitment, bool)) ensures q == (prev_holder_commitment_tx, false) { (prev_holder_commitment_tx, $f2) })
+                    .filter(|p: &(&HolderCommitment, bool)| -> (b: bool) ensures b == (p.0.id == commitment_txid) { let prev_holder_commitment_tx = p.0; $b2 })
+            })
+    }
+//@ret r
+//@ensures P C07,C03 a-confirmed-transaction-is-recognised-as-our-current-commitment-by-its-txid-and-only-otherwise-as-the-previous-one-and-is-flagged-accordingly
+    funding_spent.current_holder_commitment_tx.id == commitment_txid ==> r == Some((&funding_spent.current_holder_commitment_tx, true)),
+    funding_spent.current_holder_commitment_tx.id != commitment_txid ==> r == (match funding_spent.prev_holder_commitment_tx { Some(pc) => if pc.id == commitment_txid { Some((&pc, false)) } else { None::<(&HolderCommitment, bool)> }, None => None::<(&HolderCommitment, bool)> }),
+//@mutant previous_commitment_flagged_as_the_current_one
+    .map(|prev_holder_commitment_tx| (prev_holder_commitment_tx, false))
+//@with
+    .map(|prev_holder_commitment_tx| (prev_holder_commitment_tx, true))
+//@end
+//@extract lightning/src/chain/channelmonitor.rs :: impl ChannelMonitorImpl :: fn check_spend_holder_transaction
+//@slice R15
+    if current { fail_unbroadcast_htlcs!( self, current_msg, commitment_txid, commitment_tx, height, block_hash, holder_commitment_htlcs!(self, $w1:ident), logger ); } else { fail_unbroadcast_htlcs!( self, current_msg, commitment_txid, commitment_tx, height, block_hash, holder_commitment_htlcs!(self, $w2:ident).unwrap(), logger ); }
+//@with
+    fn htlcs_compared_with_our_confirmed_commitment(current: bool) -> Which { if current { which_holder_htlcs!($w1) } else { which_holder_htlcs!($w2) } }
+//@ret r
+//@ensures P C07,C03,C02 htlcs-missing-from-our-confirmed-commitment-are-failed-back-against-the-htlc-set-of-that-very-commitment
+    current ==> r is CurrentHolder, !current ==> r is PrevHolder,
+//@mutant previous_commitment_compared_with_the_current_htlcs
+    holder_commitment_htlcs!(self, PREV_WITH_SOURCES).unwrap(),
+//@with
+    holder_commitment_htlcs!(self, CURRENT_WITH_SOURCES).unwrap(),
 //@end
 }
 fn main() {}
